@@ -13,7 +13,7 @@ EXPLANATION = (
     "(reuse before create). C19.R5: pool reset/reset_to_start iterate bumps() and call the same-named Bump method. "
     "C19.R4 (rustc as oracle, see C04's corpus): allocations through a guard cannot outlive pool.reset()/drop; "
     "BumpPool<A: !Send> is not Sync, Bump<A: !Send> is not Send. Not decided: fairness/timing; 'never exceeds the peak' "
-    "as a number.")
+    "as a number. C19.R6: every LockResult of the pool's mutex is recovered with PoisonError::into_inner (a panicking getter may poison it).")
 
 POOL_ADT = "bump_pool::BumpPool"
 GUARD_ADT = "bump_pool::BumpPoolGuard"
